@@ -6,7 +6,7 @@ def digest(model):
         v = model[k]
         if isinstance(v, torch.Tensor):
             v = v.to_dense().numpy() if v.layout != torch.strided else v.numpy()
-        if isinstance(v, np.ndarray): h.update(np.ascontiguousarray(v).tobytes())
+        if isinstance(v, np.ndarray): h.update(str((v.shape, str(v.dtype))).encode()); h.update(np.ascontiguousarray(v).tobytes())
         else: h.update(str(v).encode())
     return h.hexdigest()[:12]
 def work(model, x):
